@@ -649,6 +649,10 @@ def pending_pair_burst(rng, version, hist):
               ("L", wake)]
     if rng.random() < 0.5:
         script += [("L", f"{node};{child};2;0;{a};\n"), ("L", wake)]
+    if rng.random() < 0.35:
+        # many replies withheld for one sleep period (no bound on how many may wait), then the wake-up
+        n = rng.choice([9, 12, 17, 33, 70])
+        script += [("L", f"{node};{child};2;0;{rng.choice([a, b])};\n") for _ in range(n)] + [("L", wake)]
     out = list(hist)
     pos = rng.randrange(len(out) + 1)
     for op in script:
